@@ -86,7 +86,7 @@ LEAF_IS_TOKEN = ['exc.error_leaf is not None', 'exc.error_leaf.value == token.st
 class_fields('DFAState', arcs='map:str:ref:DFAState')
 class_fields('PythonTokenTypes', name='str')
 NODES_NN = ('forall(lambda k, j: implies(0 <= k and k < len(self.stack) and 0 <= j and j < len(self.stack[k].nodes), '
-            'self.stack[k].nodes[j] is not None), kinds=dict(k="int", j="int"))')
+            'self.stack[k].nodes[j] is not None), kinds=dict(k="int", j="int"), trigger=lambda k, j: self.stack[k].nodes[j])')
 ARCS_WF = ("forall(lambda d, s: implies(d is not None and s in d.arcs, d.arcs[s] is not None), "
            "kinds=dict(d='ref:DFAState', s='str'))")
 # Node constructors reached through convert_node (Function.__init__ / Lambda.__init__ regroup the parameters) change the
@@ -130,7 +130,7 @@ contract('parso.parser.BaseParser.error_recovery#dispatch', params={'self': 'ref
                    TABLES_WF, PUSHES_WF, DISJOINT, ROOT_OPEN, NODES_NN, ARCS_WF],
          ensures=['self.stack is not None', 'len(self.stack) >= 1', STACK_WF, NODES_NN, PUSHES_WF],
          raises=['ParserSyntaxError', 'NotImplementedError', 'InternalParseError'],
-         modifies=['dfa', 'parent', 'children', 'stack', 'nodes', '_omit_dedent_list'], lists='*',
+         modifies=['dfa', 'parent', 'children', 'nodes', '_omit_dedent_list'], lists='*',
          raises_ensures={'ParserSyntaxError': LEAF_IS_TOKEN},
          note='assumed (dynamic dispatch to Parser.error_recovery): re-establishes the stack shape; not verified')
 
@@ -157,7 +157,7 @@ contract('parso.parser.BaseParser._add_token', params={'self': 'ref:BaseParser',
                                    'forall(lambda k: implies(0 <= k and k < _i, stack[len(stack) - _i + k].dfa is plan.dfa_pushes[k] and '
                                    'len(stack[len(stack) - _i + k].nodes) == 0), trigger=lambda k: plan.dfa_pushes[k])'],
                         len_stable=True, lists_modified=['stack'])},
-         modifies=['dfa', 'parent', 'children', 'stack', 'nodes', '_omit_dedent_list'], lists='*', frame_assumed=NODE_CTOR,
+         modifies=['dfa', 'parent', 'children', 'nodes', '_omit_dedent_list'], lists='*', frame_assumed=NODE_CTOR,
          # self.error_recovery(token) is dispatched dynamically: the assumed contract of any overrider
          call_keys={'parso.parser.BaseParser.error_recovery': 'parso.parser.BaseParser.error_recovery#dispatch'},
          props=['C02', 'C01'])
@@ -202,7 +202,7 @@ contract('parso.python.parser.Parser.error_recovery#strict', params={'self': 're
                   'self._start_nonterminal == "file_input"', 'old(%s.dfa.from_rule) == "simple_stmt"' % TOP],
          raises=['ParserSyntaxError', 'NotImplementedError', 'InternalParseError'],
          raises_ensures={'ParserSyntaxError': LEAF_IS_TOKEN},
-         modifies=['dfa', 'parent', 'children', 'stack', 'nodes', '_omit_dedent_list'], lists='*', frame_assumed=NODE_CTOR,
+         modifies=['dfa', 'parent', 'children', 'nodes', '_omit_dedent_list'], lists='*', frame_assumed=NODE_CTOR,
          call_keys=LAST_LEAF_NN, globals_={'DEDENT': 'ref:PythonTokenTypes'},
          props=['C07'])
 
@@ -250,7 +250,7 @@ contract('parso.python.parser.Parser.error_recovery#recover', params={'self': 'r
          ensures=['self.stack is not None', 'len(self.stack) >= 1', STACK_WF, NODES_NN, PUSHES_WF],
          raises=['ParserSyntaxError', 'NotImplementedError', 'InternalParseError'],
          raises_ensures={'ParserSyntaxError': LEAF_IS_TOKEN},
-         modifies=['dfa', 'parent', 'children', 'stack', 'nodes', '_omit_dedent_list'], lists='*', frame_assumed=NODE_CTOR,
+         modifies=['dfa', 'parent', 'children', 'nodes', '_omit_dedent_list'], lists='*', frame_assumed=NODE_CTOR,
          call_keys=LAST_LEAF_NN, globals_={'DEDENT': 'ref:PythonTokenTypes', 'INDENT': 'ref:PythonTokenTypes'},
          props=['C02'])
 
